@@ -166,6 +166,16 @@ class Kinds:
         return ks[i % len(ks)]
 
 
+def is_retried(b, k):
+    """the request at position k is repeated before the client's next original"""
+    for h in b[k + 1:]:
+        if h["a"] == "Retry":
+            return True
+        if h["a"] in ("Post", "Death"):
+            return False
+    return False
+
+
 def program(name, b, rnd, kinds):
     """Rig program for one behaviour. Every model step k maps to the rig step
     tagged {"k": k}."""
@@ -199,7 +209,7 @@ def program(name, b, rnd, kinds):
         tag = {"k": k, "a": a}
         if a == "Post":
             tok += 1
-            retried = k + 1 < len(b) and b[k + 1]["a"] == "Retry"
+            retried = is_retried(b, k)
             kind = QUIT_KIND[role] if h["t"] == "quit" else kinds.pick(role, retried)
             if "{d}" in LINES[role][kind]:
                 disp += 1
@@ -276,6 +286,8 @@ def evaluate(ctx, prog, b, recs, trace):
                     sid[s["alias"]] = s["sid"]
             live_at[post["raftLast"]] = post
         if "k" not in tag:
+            if st["op"] in ("post", "login", "config", "create_session") and (r.get("status") != 200 or r.get("err")):
+                raise vlib.Inconclusive("%s: setup step %d (%s) failed: %s %s" % (name, i, st["op"], r.get("status"), r.get("body", "")[:100]))
             if tag.get("final"):
                 final = post
             if "deliver" in tag and r.get("status") == 200:
@@ -465,6 +477,16 @@ def run(ctx):
     ctx.cov["features_replayed"] = len(got)
     kinds = Kinds()
     progs = [program("r%04d" % n, b, rnd, kinds) for n, b in enumerate(chosen)]
+    retried = set()
+    for p, b in zip(progs, chosen):
+        tags = {s["tag"]["k"]: s["tag"] for s in p["steps"] if "k" in (s.get("tag") or {}) and s["tag"]["a"] == "Post"}
+        for k, h in enumerate(b):
+            if h["a"] == "Post" and is_retried(b, k):
+                retried.add((b[0]["role"], tags[k]["kind"]))
+    missing = [(r, k) for r in LINES for k in LINES[r] if (r, k) not in retried]
+    if missing:
+        raise vlib.Inconclusive("replay set retries no message of kind(s) %s" % missing)
+    ctx.cov["role_line_kinds_retried"] = len(retried)
     ctx.log("replaying %d behaviours on the rig" % len(progs))
     res = rig_common.run(ctx, binary, progs, par=6 if ctx.quick else 8, timeout=3000)
     trace = []
